@@ -14,6 +14,7 @@ import (
 
 	appparams "github.com/chain4energy/c4e-chain/app/params"
 	cfeminter "github.com/chain4energy/c4e-chain/x/cfeminter"
+	minterkeeper "github.com/chain4energy/c4e-chain/x/cfeminter/keeper"
 	mintertypes "github.com/chain4energy/c4e-chain/x/cfeminter/types"
 	codectypes "github.com/cosmos/cosmos-sdk/codec/types"
 	sdk "github.com/cosmos/cosmos-sdk/types"
@@ -513,6 +514,9 @@ func runMinterCase(ta *TestApp, seed uint64, idx int, rep *Report, profile strin
 	if want != nil && !k10 {
 		rep.Eval("C02.cumulative_equals_schedule", totals[0].Cmp(want) == 0, idx*10, -1, fmt.Sprintf("minted %v schedule floor %v at %d", totals[0], want, T.UnixNano()))
 	}
+	if want != nil && !k10 && rng.Chance(45) {
+		runMinterFaultLeg(ta, rng, c, st, t0, T, idx, rep, want)
+	}
 	rep.NoteCase(c.paramsTerm()+T.String(), totals[0].Sign() > 0)
 	return terms
 }
@@ -932,4 +936,101 @@ func runMinterInvalid(ta *TestApp, rng *Rng, c minterCfg, idx int, rep *Report) 
 	rep.Ops++
 	return fmt.Sprintf("{| mc_id := %d; mc_world := {| mw_params := %s; mw_state := {| s_seq := 1; s_minted := 0; s_rem := 0; s_rem_prev := 0; s_last := 0 |}; mw_hist := []; mw_supply := 0 |};\n mc_valid := %s; mc_blocks := [] |}",
 		idx*10, c.paramsTerm(), zBool(valid))
+}
+
+// ---- fault leg: bank calls of the minter fail in chosen blocks
+
+// mintFaultBank is the minter's bank with a switch: while on, the chosen call fails (0: MintCoins before anything happened,
+// 1: the transfer to the collector, after the coins were minted).
+type mintFaultBank struct {
+	mintertypes.BankKeeper
+	on   *bool
+	kind *int
+	hits *int
+}
+
+func (b mintFaultBank) MintCoins(ctx sdk.Context, name string, amt sdk.Coins) error {
+	if *b.on && *b.kind == 0 {
+		*b.hits++
+		return fmt.Errorf("verif: injected MintCoins failure")
+	}
+	return b.BankKeeper.MintCoins(ctx, name, amt)
+}
+
+func (b mintFaultBank) SendCoinsFromModuleToModule(ctx sdk.Context, from, to string, amt sdk.Coins) error {
+	if *b.on && *b.kind == 1 {
+		*b.hits++
+		return fmt.Errorf("verif: injected transfer failure")
+	}
+	return b.BankKeeper.SendCoinsFromModuleToModule(ctx, from, to, amt)
+}
+
+// runMinterFaultLeg runs one more partition of [t0, T] in which the bank refuses the minter's calls in some blocks. A block
+// whose BeginBlocker panics is not committed (the node halts and the block is processed again after the restart; here: the
+// next block time); every block that returns is committed whatever it did. C02 over the committed history: the supply grew by
+// exactly the integer part of the schedule's cumulative emission at T — a refused call neither loses an amount nor has it
+// emitted twice. Not part of the model comparison (the model has no failing bank).
+func runMinterFaultLeg(ta *TestApp, rng *Rng, c minterCfg, st mintertypes.MinterState, t0, T time.Time, idx int, rep *Report, want *big.Int) {
+	app := ta.App
+	on, kind, hits := false, 0, 0
+	fb := mintFaultBank{BankKeeper: app.BankKeeper, on: &on, kind: &kind, hits: &hits}
+	fk := minterkeeper.NewKeeper(app.AppCodec(), app.GetKey(mintertypes.StoreKey), app.GetMemKey(mintertypes.MemStoreKey),
+		app.GetSubspace(mintertypes.ModuleName), fb, app.StakingKeeper, app.CfeminterKeeper.GetCollectorName(), appparams.GetAuthority())
+	ctx, _ := ta.Ctx().CacheContext()
+	if err := fk.SetParams(ctx, c.params()); err != nil {
+		panic("SetParams of a validated configuration failed: " + err.Error())
+	}
+	fk.SetMinterState(ctx, st)
+	supply0 := app.BankKeeper.GetSupply(ctx, c.denom).Amount
+	times := genPartition(rng, c, t0, T, rng.Intn(4))
+	if len(times) < 2 {
+		return
+	}
+	rep.Count("fault_leg.cases")
+	var log []string
+	halted, committedFaults := 0, 0
+	for i, t := range times {
+		on = i < len(times)-1 && rng.Chance(35)
+		if rng.Chance(33) { // one third MintCoins, two thirds the transfer
+			kind = 0
+		} else {
+			kind = 1
+		}
+		before := hits
+		bctx, write := ctx.WithBlockTime(t).WithEventManager(sdk.NewEventManager()).CacheContext()
+		panicked := false
+		func() {
+			defer func() {
+				if r := recover(); r != nil {
+					panicked = true
+				}
+			}()
+			cfeminter.BeginBlocker(bctx, *fk)
+		}()
+		hit := hits > before
+		switch {
+		case panicked && !hit:
+			rep.Panics = append(rep.Panics, fmt.Sprintf("case %d fault leg block %d at %d: BeginBlocker panicked although no bank call was refused", idx*10, i, t.UnixNano()))
+			return
+		case panicked:
+			halted++
+			log = append(log, fmt.Sprintf("block %d at %d: %s refused, BeginBlocker panicked, block not committed", i, t.UnixNano(), []string{"MintCoins", "transfer to the collector"}[kind]))
+		default:
+			write()
+			if hit {
+				committedFaults++
+				log = append(log, fmt.Sprintf("block %d at %d: %s refused, BeginBlocker returned, block committed", i, t.UnixNano(), []string{"MintCoins", "transfer to the collector"}[kind]))
+			}
+		}
+		on = false
+	}
+	rep.Count(fmt.Sprintf("fault_leg.halted_blocks.%d", 3-max0(3-halted)))
+	if committedFaults > 0 {
+		rep.Count("fault_leg.committed_blocks_with_refused_call")
+	}
+	got := app.BankKeeper.GetSupply(ctx, c.denom).Amount.Sub(supply0).BigInt()
+	if want != nil {
+		rep.Eval("C02.cumulative_equals_schedule_when_bank_calls_are_refused", got.Cmp(want) == 0, idx*10, -1,
+			fmt.Sprintf("supply grew by %v, schedule floor %v at %d; %s", got, want, T.UnixNano(), strings.Join(log, "; ")))
+	}
 }
